@@ -2,7 +2,10 @@
 PROPERTY = "C03"
 LEVEL = "proof"
 FUNCTIONS = ['uxarray.grid.connectivity._build_edge_face_connectivity',
-    'uxarray.grid.geometry._construct_hole_edge_indices']
+    'uxarray.grid.geometry._construct_hole_edge_indices',
+    'uxarray.io._mpas._parse_face_faces@primal',
+    'uxarray.io._mpas._parse_node_faces@primal',
+    'uxarray.io._mpas._parse_node_faces@dual']
 STANDINS = ["incidence"]
 ASSUMPTIONS = []
 EXPLANATION = "builders under contract + bounded stand-in"
